@@ -573,7 +573,7 @@ class TensorProduct(CodeGenMixin, torch.nn.Module):
         """
         if not self.instructions[instruction].has_weight:
             raise ValueError(f"Instruction {instruction} has no weights.")
-        offset = sum(prod(ins.path_shape) for ins in self.instructions[:instruction])
+        offset = sum(prod(ins.path_shape) for ins in self.instructions[:instruction] if ins.has_weight)
         ins = self.instructions[instruction]
         weight = self._get_weights(weight)
         batchshape = weight.shape[:-1]
